@@ -135,7 +135,7 @@ Proof.
 Qed.
 Example sample_tfonts_roundtrip :
   match create_font_bundle sample_tfonts with
-  | Ok bs => lenN bs = 475 /\ from_tdf_bytes (fun s => s) bs = Ok sample_tfonts
+  | Ok bs => lenN bs = 473 /\ from_tdf_bytes (fun s => s) bs = Ok sample_tfonts
   | _ => False
   end.
 Proof. vm_compute. repeat split. Qed.
